@@ -50,6 +50,36 @@ def filler_blocks(lengths=range(18, 28), max_special=3):
                     yield blk
 
 
+def deep_blocks(heights=range(0, 18)):
+    """Splitting instructions met at every stack height around the one- to two-digit boundary of the stack-variable
+    index (s(9)/s(10)): the height is reached by pushes, by reading the initial stack (DUPk) or by both."""
+    splits = [[B.I("LOG0")], [B.I("LOG1")], [B.I("LOG2")], [B.I("MSTORE")], [B.I("SSTORE")], [B.I("CALLDATACOPY")],
+              [B.I("ASSIGNIMMUTABLE", "a1")], [B.I("GAS")], [B.I("CALLER"), B.I("BALANCE")],
+              [B.P(0x20), B.P(0), B.I("LOG1")], [B.P(0), B.I("DUP1"), B.I("LOG0")]]
+    tails = [[], [B.I("ADD")], [B.I("DUP1"), B.I("ADD")], [B.I("POP"), B.I("POP")]]
+    seen = set()
+    for h in heights:
+        pres = [[B.P(i + 2) for i in range(h)]]
+        if 1 <= h <= 16:
+            pres.append([B.I("DUP%d" % h)])
+            pres.append([B.I("SWAP%d" % h)])
+            pres.append([B.I("DUP%d" % h), B.I("DUP%d" % h)])
+        if 3 <= h:
+            pres.append([B.P(i + 2) for i in range(h - 2)] + [B.I("DUP%d" % min(16, h))])
+        for pre in pres:
+            for sp in splits:
+                for tl in tails:
+                    blk = pre + sp + tl
+                    try:
+                        E.need_delta(blk)
+                    except (E.BadInstr, E.Underflow):
+                        continue
+                    t = tuple(blk)
+                    if t not in seen:
+                        seen.add(t)
+                        yield blk
+
+
 def check_block(ctx, block):
     """Returns a violation dict or None."""
     push0 = ctx.push0
@@ -197,9 +227,11 @@ def unit_sets(tier):
         yield "tree(SPLIT13,4)", list(B.tree(ALPHA, 4, max_need=8))
         yield "filler(18..27,<=2)", list(filler_blocks(range(18, 28), 2))
         yield "filler(21..24,3)", [b for b in filler_blocks(range(21, 25), 3)]
+        yield "deep-stack", list(deep_blocks())
     else:
         yield "tree(SPLIT13,5)", list(B.tree(ALPHA, 5, max_need=8))
         yield "filler(18..27,<=3)", list(filler_blocks(range(18, 28), 3))
+        yield "deep-stack", list(deep_blocks(list(range(0, 40)) + [98, 99, 100, 101, 102]))
 
 
 def main(tier, seed, only=None):
